@@ -35,6 +35,21 @@ Sections:
              Duration::MAX) on a full queue whose parked receiver is released once the sender really
              waits: Ok, no panic, item delivered exactly once, the channel still works afterwards.
 * `flood`  – 10 × capacity plain sends complete while the processor never returns / no receiver runs.
+* `retained`– (native, runs alone: the counting allocator is process-wide) a channel of 1 KiB boxed
+             buffers whose processor is parked on a gate receives 32 blocks of `capacity` plain sends; the
+             live heap is read after every block. What a counted overflow discards must be freed: alarm
+             iff at some block k >= 8 the heap retained since the start exceeds 3 x capacity x item size
+             (+ 64 KiB) AND it rose by more than a quarter of an item per sent item between block k/2 and block k.
+* `spin`   – (native, runs alone) a blocked sender (sync / tokio blocking / tokio async, T = 60 s or
+             Duration::MAX) is woken because a batch was taken, loses every slot to a refilling watcher,
+             and the receiver is parked in its processor again: over a 200 ms window in which nothing
+             can change (no other senders, receiver on its gate) (i) the number of registered `on_take`
+             watchers (state snapshot) stays <= blocked senders + the watchers the scenario registered
+             itself (+ 2), (ii) the blocked sender's thread passes <= 16 scheduling points (hook H-B,
+             counted per thread), (iii) the live heap rises by <= 64 KiB, (iv) the blocked sender's thread
+             uses < 50 ms of CPU (/proc/self/task/<tid>/stat). A rule is reported only if it fires in 3
+             of 3 repetitions; all four are counts of what a parked thread cannot do, none compares
+             wall-clock durations.
 * `conc`   – 2–8 sender threads + a sampler thread + a real receiver thread that is stalled and
              released; every sender (after each op) and the sampler assert the bound through the
              snapshot; afterwards accepted = delivered ⊎ truncated with `lost == events × capacity`.
@@ -45,6 +60,11 @@ time limit is a watchdog that yields `inconclusive`.
 
 #[path = "../shared/chanvt.rs"]
 mod chanvt;
+
+// live-heap readings for the `retained` and `spin` sections (the Miri lane keeps Miri's allocator)
+#[cfg(not(miri))]
+#[global_allocator]
+static ALLOC: chanvt::heap::Counting = chanvt::heap::Counting;
 
 use std::{
     cell::RefCell,
@@ -772,6 +792,8 @@ mod threads {
             sys.try_send(r, 200)?;
             sys.blocking_send(r, 201, t, kind)?;
             sys.blocking_send(r, 202, Duration::ZERO, kind)?;
+            // (not judged: a blocking send that timed out leaves its on_take watcher behind until the next take)
+            r.observe("stall:on_take-watchers-left-behind-by-a-timed-out-blocking-send", sys.sender().verif_snapshot().on_take as u64);
             sys.send(r, 300)?;
             sys.try_send(r, 301)?;
             // `send` keeps returning while the processor never does
@@ -1540,6 +1562,468 @@ mod threads {
         r.nontrivial(&("late", cap, kind));
     }
 
+    // ---- what an overflow discards must be freed (generic `Vec` channel, stalled receiver) ----
+
+    type BChan = Vec<Box<[u8]>>;
+
+    const RETAINED_MIN_BLOCK: usize = 8;
+    const RETAINED_SLACK: i64 = 64 * 1024;
+
+    fn start_buf_receiver(kind: RecvKind, receiver: emit_batcher::Receiver<BChan>, seen: Arc<AtomicU64>, gate: Gate) -> thread::JoinHandle<()> {
+        match kind {
+            RecvKind::Sync => emit_batcher::sync::spawn("c09_buf_receiver", receiver, move |batch: BChan| {
+                seen.fetch_add(batch.len() as u64, Ordering::SeqCst);
+                gate.pass();
+                Ok(())
+            })
+            .expect("spawn receiver"),
+            #[cfg(feature = "tokio")]
+            RecvKind::Tokio => emit_batcher::tokio::spawn("c09_buf_receiver", receiver, move |batch: BChan| {
+                let (seen, gate) = (seen.clone(), gate.clone());
+                async move {
+                    seen.fetch_add(batch.len() as u64, Ordering::SeqCst);
+                    tokio::task::yield_now().await;
+                    gate.pass();
+                    Ok(())
+                }
+            })
+            .expect("spawn receiver"),
+        }
+    }
+
+    /// (k, retained, rise since k/2, limit for retained, limit for the rise) when the rule fires at the last block.
+    fn retained_alarm(series: &[i64], cap: usize, item: i64) -> Option<(usize, i64, i64, i64, i64)> {
+        let k = series.len() - 1;
+        if k < RETAINED_MIN_BLOCK {
+            return None;
+        }
+        let h = k / 2;
+        let retained = series[k] - series[0];
+        let rise = series[k] - series[h];
+        let retained_limit = 3 * cap as i64 * item + RETAINED_SLACK;
+        let rise_limit = item / 4 * (k - h) as i64 * cap as i64;
+        (retained > retained_limit && rise > rise_limit).then_some((k, retained, rise, retained_limit, rise_limit))
+    }
+
+    pub fn retained_case(r: &mut Report, cap: usize, rk: RecvKind, blocks: usize, item_len: usize, print: bool) {
+        r.eval();
+        let case = json!({"section": "retained", "capacity": cap, "receiver": rk.name(), "blocks": blocks, "item_bytes": item_len});
+        if !heap::installed() {
+            r.inconclusive("retained: the counting allocator is not installed");
+            return;
+        }
+        let (sender, receiver) = bounded::<BChan>(cap);
+        let ms = sender.metric_source();
+        let seen = Arc::new(AtomicU64::new(0));
+        let gate = Gate::new(false);
+        let handle = start_buf_receiver(rk, receiver, seen.clone(), gate.clone());
+        let item = |k: usize| vec![b'a' + (k % 26) as u8; item_len].into_boxed_slice();
+        sender.send(item(0));
+        if !gate.wait_arrivals(1, WATCHDOG) {
+            r.inconclusive("retained: the processor never reached the gate");
+            gate.open();
+            return;
+        }
+        // the processor holds the first item and is parked: from here on nothing is taken
+        let per_item = (item_len + std::mem::size_of::<Box<[u8]>>()) as i64;
+        let mut series: Vec<i64> = Vec::with_capacity(blocks + 2);
+        let mut alarm = None;
+        let mut max_pending = 0usize;
+        series.push(heap::live_bytes());
+        for k in 1..=blocks {
+            // ---- measured phase: nothing but the sends ----
+            for j in 0..cap {
+                sender.send(item(k + j));
+            }
+            series.push(heap::live_bytes());
+            // ---- once per block, after the heap sample ----
+            max_pending = max_pending.max(sender.verif_snapshot().pending_len);
+            alarm = retained_alarm(&series, cap, per_item);
+            if alarm.is_some() {
+                break;
+            }
+        }
+        let trunc = *metrics(&ms).get("queue_full_truncated").unwrap_or(&0);
+        let done_blocks = series.len() - 1;
+        let rel: Vec<i64> = series.iter().map(|l| l - series[0]).collect();
+        if print {
+            eprintln!("retained cap {} {}: item {} B, live heap after each block of {} sends, bytes above the start: {:?}", cap, rk.name(), per_item, cap, rel);
+        }
+        r.observe("retained:sends-completed-while-processor-parked", (done_blocks * cap) as u64);
+        r.observe("retained:heap-samples", series.len() as u64);
+        r.observe("retained:overflow-truncations", trunc);
+        if cap == 64 {
+            r.set(&format!("retained-{}-cap-64-bytes-above-start-per-block", rk.name()), json!(rel));
+        }
+        if max_pending > cap {
+            r.violation(
+                "C09:bound:pending-exceeds-capacity:after-send",
+                &format!("{} items pending at a block boundary of the retained-heap scenario, capacity {}", max_pending, cap),
+                case.clone(),
+            );
+        }
+        if let Some((k, retained, rise, retained_limit, rise_limit)) = alarm {
+            let mut c = case.clone();
+            c["bytes_above_start_after_each_block"] = json!(rel);
+            r.violation(
+                &format!("C09:batcher:retained-heap-grows-with-emitted-events:{}", rk.name()),
+                &format!(
+                    "with the processor parked, the live heap after {} blocks of {} sends of {}-byte buffers is {} bytes above the start (limit 3 x capacity x item + 64 KiB = {}) and rose by {} bytes over the last {} blocks (limit a quarter of an item per sent item = {}), with {} counted truncations and at most {} pending: what the overflows discarded is not freed",
+                    k,
+                    cap,
+                    item_len,
+                    retained,
+                    retained_limit,
+                    rise,
+                    k - k / 2,
+                    rise_limit,
+                    trunc,
+                    max_pending
+                ),
+                c,
+            );
+        } else if trunc == 0 {
+            r.inconclusive(format!("retained: no truncation was counted in {} blocks (capacity {}); growth not judged", done_blocks, cap));
+        } else {
+            r.observe("retained:scenarios-with-a-plateau", 1);
+        }
+        r.nontrivial(&("retained", cap, rk));
+        drop(sender);
+        gate.open();
+        if !join_bounded(handle, WATCHDOG) {
+            r.inconclusive(format!("retained: {} receiver did not terminate within the watchdog", rk.name()));
+        }
+    }
+
+    // ---- a blocked sender that was woken and lost the slot must go back to sleep ----
+
+    /// Scheduling points (hook H-B) counted per thread: a thread that wants to be counted takes a
+    /// slot; the hook itself only reads a thread-local and bumps an atomic (no allocation).
+    pub mod pts {
+        use std::{
+            cell::Cell,
+            sync::atomic::{AtomicU64, AtomicUsize, Ordering},
+        };
+
+        const SLOTS: usize = 64;
+        static COUNTS: [AtomicU64; SLOTS] = [const { AtomicU64::new(0) }; SLOTS];
+        static NEXT: AtomicUsize = AtomicUsize::new(0);
+
+        thread_local! {
+            static SLOT: Cell<usize> = const { Cell::new(0) };
+        }
+
+        pub fn hook(_p: emit_batcher::verif::Point) {
+            let s = SLOT.try_with(|s| s.get()).unwrap_or(0);
+            if s != 0 {
+                COUNTS[s].fetch_add(1, Ordering::SeqCst);
+            }
+        }
+
+        /// A fresh slot (slots are reused round-robin; the scenarios that use them run one at a time).
+        pub fn claim() -> usize {
+            let s = 1 + NEXT.fetch_add(1, Ordering::SeqCst) % (SLOTS - 1);
+            COUNTS[s].store(0, Ordering::SeqCst);
+            s
+        }
+
+        /// Count the calling thread's points under `slot` from now on.
+        pub fn enter(slot: usize) {
+            SLOT.with(|s| s.set(slot));
+        }
+
+        pub fn count(slot: usize) -> u64 {
+            COUNTS[slot].load(Ordering::SeqCst)
+        }
+    }
+
+    /// utime + stime (clock ticks, 10 ms each) of one thread of this process.
+    fn thread_cpu_ticks(tid: u64) -> Option<u64> {
+        let stat = std::fs::read_to_string(format!("/proc/self/task/{}/stat", tid)).ok()?;
+        let rest = &stat[stat.rfind(')')? + 1..];
+        let f: Vec<&str> = rest.split_whitespace().collect();
+        // after the command name: state is field 3, utime 14, stime 15
+        Some(f.get(11)?.parse::<u64>().ok()? + f.get(12)?.parse::<u64>().ok()?)
+    }
+
+    fn own_tid() -> Option<u64> {
+        let link = std::fs::read_link("/proc/thread-self").ok()?;
+        link.file_name()?.to_str()?.parse().ok()
+    }
+
+    pub const SPIN_WINDOW: Duration = Duration::from_millis(200);
+    const SPIN_WATCHER_SLACK: usize = 2;
+    const SPIN_MAX_POINTS: u64 = 16;
+    const SPIN_MAX_HEAP: i64 = 64 * 1024;
+    const SPIN_MAX_CPU_TICKS: u64 = 5;
+
+    #[derive(Clone, Copy, Debug, PartialEq, Eq, Hash, PartialOrd, Ord)]
+    enum SpinRule {
+        Watchers,
+        Points,
+        Heap,
+        Cpu,
+    }
+
+    enum SpinRep {
+        /// the window was observed: the rules that fired, with what was seen
+        Observed(Vec<(SpinRule, String)>),
+        Inconclusive(String),
+    }
+
+    fn spin_rep(r: &mut Report, cap: usize, kind: BlockKind, rk: RecvKind, t: Duration, own: usize) -> SpinRep {
+        let (sender, receiver) = bounded::<Chan>(cap);
+        let sender = Arc::new(sender);
+        let delivered: Delivered = Arc::new(Mutex::new(Vec::new()));
+        let gate = TicketGate::new();
+        let handle = {
+            let (delivered, gate) = (delivered.clone(), gate.clone());
+            match rk {
+                RecvKind::Sync => emit_batcher::sync::spawn("c09_spin_receiver", receiver, move |batch: Chan| {
+                    delivered.lock().unwrap().push(batch);
+                    gate.pass();
+                    Ok(())
+                })
+                .expect("spawn receiver"),
+                #[cfg(feature = "tokio")]
+                RecvKind::Tokio => emit_batcher::tokio::spawn("c09_spin_receiver", receiver, move |batch: Chan| {
+                    let (delivered, gate) = (delivered.clone(), gate.clone());
+                    async move {
+                        delivered.lock().unwrap().push(batch);
+                        tokio::task::yield_now().await;
+                        gate.pass();
+                        Ok(())
+                    }
+                })
+                .expect("spawn receiver"),
+            }
+        };
+        // whatever happens below, the receiver is let go and (bounded) waited for
+        let finish = |sender: Arc<Sender<Chan>>, handle: thread::JoinHandle<()>, gate: &TicketGate| {
+            gate.open();
+            drop(sender);
+            join_bounded(handle, WATCHDOG)
+        };
+        sender.send(1);
+        if !gate.wait_arrivals(1, WATCHDOG) {
+            finish(sender, handle, &gate);
+            return SpinRep::Inconclusive("the processor never reached the gate".into());
+        }
+        for k in 0..cap as u64 {
+            sender.send(100 + k);
+        }
+        // B: registered first; refills the queue the moment the batch is taken (the other senders win every slot)
+        let refilled = Arc::new(AtomicU64::new(0));
+        {
+            let (s2, refilled) = (sender.clone(), refilled.clone());
+            sender.when_empty(move || {
+                for k in 0..cap as u64 {
+                    if s2.try_send(500 + k).is_ok() {
+                        refilled.fetch_add(1, Ordering::SeqCst);
+                    }
+                }
+            });
+        }
+        // A: blocks on the full queue; its scheduling points are counted, its thread id is noted
+        let slot = pts::claim();
+        let tid: Done<Option<u64>> = Done::new();
+        type CallOut = Result<Result<(), Option<u64>>, String>;
+        let done: Arc<Mutex<Option<CallOut>>> = Arc::new(Mutex::new(None));
+        {
+            let (s3, tid, done) = (sender.clone(), tid.clone(), done.clone());
+            let spawned = thread::Builder::new().name("c09_spin_sender".into()).spawn(move || {
+                tid.set(own_tid());
+                pts::enter(slot);
+                let res = catch(|| kind.call(&s3, 999, t).map_err(|e| e.into_retryable()));
+                pts::enter(0);
+                drop(s3);
+                *done.lock().unwrap() = Some(res);
+            });
+            if spawned.is_err() {
+                finish(sender, handle, &gate);
+                return SpinRep::Inconclusive("could not spawn the blocked sender".into());
+            }
+        }
+        let a_done = |done: &Arc<Mutex<Option<CallOut>>>| done.lock().unwrap().is_some();
+        let a_tid = tid.wait(Duration::from_secs(10)).flatten();
+        // wait until A's watcher is registered behind B's
+        let start = Instant::now();
+        let mut registered = false;
+        while start.elapsed() < Duration::from_secs(10) && !a_done(&done) {
+            if sender.verif_snapshot().on_take >= 2 {
+                registered = true;
+                break;
+            }
+            thread::sleep(Duration::from_micros(200));
+        }
+        if !registered {
+            let early = a_done(&done);
+            finish(sender, handle, &gate);
+            return SpinRep::Inconclusive(if early {
+                "the blocking send returned before it could be woken (judged by the other sections)".into()
+            } else {
+                "the blocked sender never registered its watcher".into()
+            });
+        }
+        let points_asleep = pts::count(slot);
+        // exactly one more batch: the receiver finishes [1], takes the full queue (B refills, A is
+        // woken and finds the queue full again) and parks in its processor again
+        gate.ticket();
+        if !gate.wait_arrivals(2, WATCHDOG) {
+            finish(sender, handle, &gate);
+            return SpinRep::Inconclusive("the receiver did not come back to the gate with the second batch".into());
+        }
+        // watchers of the scenario's own that stay registered over the window (the queue is not empty)
+        for _ in 0..own {
+            sender.when_empty(|| {});
+        }
+        // let A handle its wake-up (only shapes the window: A's two points and its one watcher fit the limits anyway)
+        let settle = Instant::now();
+        while settle.elapsed() < Duration::from_millis(100) && pts::count(slot) < points_asleep + 2 {
+            thread::sleep(Duration::from_millis(1));
+        }
+        // ---- the window: receiver parked on its gate, no other senders, nothing can change ----
+        let cpu0 = a_tid.and_then(thread_cpu_ticks);
+        let snap0 = sender.verif_snapshot();
+        let points0 = pts::count(slot);
+        let heap0 = heap::live_bytes();
+        let mut max_on_take = snap0.on_take;
+        let w = Instant::now();
+        let mut samples = 1u64;
+        while w.elapsed() < SPIN_WINDOW {
+            thread::sleep(Duration::from_millis(10));
+            max_on_take = max_on_take.max(sender.verif_snapshot().on_take);
+            samples += 1;
+        }
+        let heap1 = heap::live_bytes();
+        let points1 = pts::count(slot);
+        let snap1 = sender.verif_snapshot();
+        let cpu1 = a_tid.and_then(thread_cpu_ticks);
+        let still_blocked = !a_done(&done);
+        let parked = gate.arrivals() == 2;
+        let lost_the_slot = refilled.load(Ordering::SeqCst) == cap as u64 && snap0.pending_len == cap && snap1.pending_len == cap;
+        // ---- let go: the receiver drains, A gets its slot ----
+        gate.open();
+        let end = Instant::now();
+        while end.elapsed() < WATCHDOG && !a_done(&done) {
+            thread::sleep(Duration::from_millis(1));
+        }
+        let out = done.lock().unwrap().take();
+        let joined = out.is_some() && {
+            drop(sender);
+            join_bounded(handle, WATCHDOG)
+        };
+        if !(still_blocked && parked && lost_the_slot) {
+            r.observe("spin:setup-not-meaningful", 1);
+            return SpinRep::Inconclusive(format!(
+                "the window was not the intended one (sender still blocked: {}, receiver parked: {}, queue refilled and full at both ends: {})",
+                still_blocked, parked, lost_the_slot
+            ));
+        }
+        r.observe("spin:windows-observed", 1);
+        r.observe("spin:snapshot-samples-in-window", samples);
+        r.observe("spin:points-by-the-blocked-sender-in-window", points1 - points0);
+        r.observe("spin:max-on_take-in-window", max_on_take as u64);
+        match &out {
+            Some(Ok(Ok(()))) => r.observe("spin:blocked-sender-got-its-slot-after-the-release", 1),
+            Some(_) => r.observe("spin:blocked-sender-returned-otherwise-after-the-release", 1),
+            None => {}
+        }
+        if !joined {
+            r.inconclusive("spin: the blocked sender or the receiver did not come back within the watchdog after the release");
+        }
+        let mut fired = Vec::new();
+        let allowed = 1 + own + SPIN_WATCHER_SLACK;
+        if max_on_take > allowed {
+            fired.push((
+                SpinRule::Watchers,
+                format!("{} on_take watchers registered (start of the window {}, end {}) with 1 blocked sender and {} watchers of the scenario's own", max_on_take, snap0.on_take, snap1.on_take, own),
+            ));
+        }
+        if points1 - points0 > SPIN_MAX_POINTS {
+            fired.push((SpinRule::Points, format!("the blocked sender's thread passed {} scheduling points (state-lock acquisitions) in {:?}", points1 - points0, SPIN_WINDOW)));
+        }
+        if heap1 - heap0 > SPIN_MAX_HEAP {
+            fired.push((SpinRule::Heap, format!("the live heap rose by {} bytes in {:?}", heap1 - heap0, SPIN_WINDOW)));
+        }
+        if let (Some(c0), Some(c1)) = (cpu0, cpu1) {
+            r.observe("spin:cpu-readings-of-the-blocked-sender", 1);
+            if c1 - c0 >= SPIN_MAX_CPU_TICKS {
+                fired.push((SpinRule::Cpu, format!("the blocked sender's thread used {} ms of CPU in {:?}", (c1 - c0) * 10, SPIN_WINDOW)));
+            }
+        }
+        SpinRep::Observed(fired)
+    }
+
+    pub fn spin_case(r: &mut Report, cap: usize, kind: BlockKind, rk: RecvKind, tmo: Tmo, own: usize) {
+        r.eval();
+        let t = if tmo == Tmo::Max { Duration::MAX } else { Duration::from_secs(60) };
+        let tname = if tmo == Tmo::Max { "Duration::MAX" } else { "60s" };
+        let case = json!({"section": "spin", "capacity": cap, "blocking": kind.name(), "receiver": rk.name(), "timeout": tname, "own_watchers": own,
+                          "window_ms": SPIN_WINDOW.as_millis() as u64});
+        if !heap::installed() {
+            r.inconclusive("spin: the counting allocator is not installed");
+            return;
+        }
+        let mut common: Option<Vec<(SpinRule, Vec<String>)>> = None;
+        for _ in 0..REPS {
+            match spin_rep(r, cap, kind, rk, t, own) {
+                SpinRep::Inconclusive(why) => {
+                    r.inconclusive(format!("spin ({}, {}): {}", kind.name(), rk.name(), why));
+                    return;
+                }
+                SpinRep::Observed(fired) => {
+                    common = Some(match common {
+                        None => fired.into_iter().map(|(rule, d)| (rule, vec![d])).collect(),
+                        Some(prev) => prev
+                            .into_iter()
+                            .filter_map(|(rule, mut ds)| {
+                                fired.iter().find(|(f, _)| *f == rule).map(|(_, d)| {
+                                    ds.push(d.clone());
+                                    (rule, ds)
+                                })
+                            })
+                            .collect(),
+                    });
+                    if common.as_ref().map(|c| c.is_empty()).unwrap_or(true) {
+                        break;
+                    }
+                }
+            }
+        }
+        r.nontrivial(&("spin", cap, kind, rk, tmo, own));
+        for (rule, details) in common.unwrap_or_default() {
+            if details.len() < REPS {
+                continue;
+            }
+            let (slug, what) = match rule {
+                SpinRule::Watchers => (
+                    "watchers-grow-while-nothing-changes",
+                    "a blocked sender that was woken and lost the slot keeps registering on_take watchers in the channel's shared state while the receiver is parked and nobody else sends",
+                ),
+                SpinRule::Points => (
+                    "busy-polls-the-channel-lock",
+                    "a blocked sender that was woken and lost the slot keeps taking the channel's state lock while the receiver is parked and nobody else sends, instead of waiting for the next take or its timeout",
+                ),
+                SpinRule::Heap => (
+                    "heap-grows-while-nothing-changes",
+                    "while a woken blocked sender waits again, the receiver is parked and nobody else sends, the live heap keeps rising",
+                ),
+                SpinRule::Cpu => (
+                    "burns-cpu-while-nothing-changes",
+                    "a blocked sender that was woken and lost the slot keeps its thread running instead of sleeping until the next take or its timeout",
+                ),
+            };
+            let mut c = case.clone();
+            c["repetitions"] = json!(details);
+            r.violation(
+                &format!("C09:blocked-sender:{}:{}", slug, kind.name()),
+                &format!("{} ({} of {} repetitions): {}", what, REPS, REPS, details[0]),
+                c,
+            );
+        }
+    }
+
     // ---- extreme timeouts ----
 
     #[derive(Clone, Copy, Debug, PartialEq, Eq, Hash)]
@@ -2012,6 +2496,27 @@ fn main() {
                 }
             }
             #[cfg(not(miri))]
+            "retained" => {
+                let blocks = case.get("blocks").and_then(|v| v.as_u64()).unwrap_or(32) as usize;
+                let item = case.get("item_bytes").and_then(|v| v.as_u64()).unwrap_or(1024) as usize;
+                for rk in threads::RecvKind::all() {
+                    threads::retained_case(&mut r, cap, rk, blocks, item, true);
+                }
+            }
+            #[cfg(not(miri))]
+            "spin" => {
+                emit_batcher::verif::set_delay_divisor(1000);
+                emit_batcher::verif::set_hook(Some(threads::pts::hook));
+                let own = case.get("own_watchers").and_then(|v| v.as_u64()).unwrap_or(0) as usize;
+                let tmo = if case.get("timeout").and_then(|v| v.as_str()) == Some("Duration::MAX") { threads::Tmo::Max } else { threads::Tmo::Hour };
+                for kind in BlockKind::all() {
+                    for rk in threads::RecvKind::all() {
+                        threads::spin_case(&mut r, cap, kind, rk, tmo, own);
+                    }
+                }
+                emit_batcher::verif::set_hook(None);
+            }
+            #[cfg(not(miri))]
             "refill" => {
                 for k in 0..4 {
                     threads::refill_case(&mut r, cseed, idx + k, cap);
@@ -2095,6 +2600,43 @@ fn main() {
                         Some(op) => threads::reentrant_watcher_case(r, reg, op, rk, cap),
                     }
                 });
+            });
+        }
+        // the two sections that read the process-wide live heap run while nothing else does
+        if want("retained") {
+            let args2 = args.clone();
+            bounded_section(&mut r, "retained", sec_limit, move |r| {
+                let print = args2.get_u64("print-series", 0) != 0;
+                let blocks = if args2.thorough() { 64 } else { 32 };
+                for &cap in &[8usize, 64, 1000] {
+                    for rk in threads::RecvKind::all() {
+                        threads::retained_case(r, cap, rk, blocks, 1024, print);
+                    }
+                }
+            });
+        }
+        if want("spin") {
+            let args2 = args.clone();
+            bounded_section(&mut r, "spin", sec_limit, move |r| {
+                if threads::WATCHERS_BROKEN.load(std::sync::atomic::Ordering::SeqCst) {
+                    r.inconclusive("spin: skipped, watchers that call back into the channel were seen to hang");
+                    return;
+                }
+                emit_batcher::verif::set_hook(Some(threads::pts::hook));
+                let scaps: Vec<usize> = if args2.thorough() { vec![1, 2, 8] } else { vec![1 + (seed as usize % 3)] };
+                let mut n = seed as usize;
+                for &cap in &scaps {
+                    for kind in BlockKind::all() {
+                        for rk in threads::RecvKind::all() {
+                            for tmo in [threads::Tmo::Hour, threads::Tmo::Max] {
+                                // (Tmo::Hour stands for the finite timeout of this section, 60 s)
+                                threads::spin_case(r, cap, kind, rk, tmo, n % 3);
+                                n += 1;
+                            }
+                        }
+                    }
+                }
+                emit_batcher::verif::set_hook(None);
             });
         }
         // the `late` cases mostly sleep (T = 2 s each): run them next to the other sections
